@@ -3,7 +3,7 @@
    handler: [1 cookie_equal herr]                   ->  [status dispatched retryable usage [client view]]
    cache:   [2 expiry [ [want now tok_ok tok_id] ...]] -> [ [ok id called] ... ]
    outcome encoding: [0] success, [1 code] http, [2 class] error class, [3 retryable] token error, [4] usage *)
-From Relic Require Import Base.Prelude Base.Val Generated.C15_gen C15.Model.
+From Relic Require Import Base.Prelude Base.Val Generated.C15_gen C15.Model C15.Time C15.Rpc C15.Life.
 
 Definition voutcome (v : val) : outcome :=
   let k := vz (vnth 0 v) in
@@ -31,6 +31,88 @@ Fixpoint cache_run (expiry : Z) (st : cstate) (ops : list val) : list val :=
       :: cache_run expiry st' r
   end.
 
+(* ---- timed retry: [3 conf_retries conf_timeout_s [ctx_at(-1 never) kind(0 cancel,1 deadline)] [[outcome dur_ns] ...]]
+        -> [result_code result_arg end_ns [[start end outcome] ...]] ; result_code 0 success, 1 error, 2 context, 3 nil, 9 fuel *)
+Definition vatt (v : val) : att := mkAtt (voutcome (vnth 0 v)) (vz (vnth 1 v)).
+Definition vbase (v : val) : basectx :=
+  mkBase (if vz (vnth 0 v) <? 0 then None else Some (vz (vnth 0 v))) (if vz (vnth 1 v) =? 0 then KCanceled else KDeadline).
+Definition out_arec (a : arec) : val := VL [VZ (ar_start a); VZ (ar_end a); VL (out_outcome (ar_out a))].
+Definition run_timed (v : val) : val :=
+  let '(res, t, atts) := do_retry_timed (vz (vnth 1 v)) (vz (vnth 2 v)) (vbase (vnth 3 v)) (map vatt (vl (vnth 4 v))) in
+  let '(code, arg) := match res with
+                      | TSuccess => (0, VL []) | TFail o => (1, VL (out_outcome o))
+                      | TCtx k => (2, VL [VZ (ctx_class k)]) | TNil => (3, VL []) | TOutOfFuel => (9, VL []) end in
+  VL [VZ code; arg; VZ t; VL (map out_arec atts)].
+
+(* ---- one RPC exchange: [4 cookie_ok path [keyname keyid_present keyid digest hash salt(-1 none)] [ping getkey sign] body_ok]
+        token answers: [0 ...values] success, [1 terr] failure; terr: [1 fatal msg] [2 msg] [3 key msg] [4 pre inner] [5 msg]
+        -> [cres calls status retryable usage] *)
+Fixpoint vterr (fuel : nat) (v : val) : terr :=
+  match fuel with
+  | O => EOther []
+  | S f =>
+      let k := vz (vnth 0 v) in
+      if k =? 1 then EPkcs11 (vbool (vnth 1 v)) (vb (vnth 2 v))
+      else if k =? 2 then ENotImpl (vb (vnth 1 v))
+      else if k =? 3 then EUsage (vb (vnth 1 v)) (vb (vnth 2 v))
+      else if k =? 4 then EWrapped (vb (vnth 1 v)) (vterr f (vnth 2 v))
+      else EOther (vb (vnth 1 v))
+  end.
+Definition vtok (v : val) : tokfn :=
+  let pg := vnth 0 v in let gk := vnth 1 v in let sg := vnth 2 v in
+  mkTok (if vz (vnth 0 pg) =? 0 then None else Some (vterr 5 (vnth 1 pg)))
+        (fun _ _ => if vz (vnth 0 gk) =? 0 then inr (mkKI (vb (vnth 1 gk)) (vb (vnth 2 gk)) (vb (vnth 3 gk))) else inl (vterr 5 (vnth 1 gk)))
+        (fun _ _ _ _ => if vz (vnth 0 sg) =? 0 then inr (vb (vnth 1 sg)) else inl (vterr 5 (vnth 1 sg))).
+Definition vreq (v : val) : rreq :=
+  mkReq (vb (vnth 0 v)) (if vbool (vnth 1 v) then Some (vb (vnth 2 v)) else None) (vb (vnth 3 v)) (vz (vnth 4 v))
+        (if vz (vnth 5 v) <? 0 then None else Some (vz (vnth 5 v))).
+Definition out_cres (c : cres) : val :=
+  match c with
+  | CSuccess r => VL [VZ 0; VB (p_value r); VB (p_id r); VB (p_cert r)]
+  | CUsage k m => VL [VZ 1; VB k; VB m]
+  | CTokErr m r => VL [VZ 2; VB m; of_bool r]
+  | CHttpErr code => VL [VZ 3; VZ code]
+  | CMalformed => VL [VZ 4]
+  end.
+Definition out_call (c : tcall) : val :=
+  match c with
+  | TPing => VL [VZ 1]
+  | TGetKey n p => VL [VZ 2; VB n; VB p]
+  | TSign n p d h s => VL [VZ 3; VB n; VB p; VB d; VZ h; VZ (match s with Some x => x | None => -1 end)]
+  end.
+Definition run_rpc (v : val) : val :=
+  let tok := vtok (vnth 4 v) in
+  let rr := decode_req (encode_req (vreq (vnth 3 v))) in
+  let '(status, body, calls) := serve tok (mkSReq (vbool (vnth 1 v)) (if vbool (vnth 5 v) then Some rr else None) (vb (vnth 2 v))) in
+  let c := client_once status (option_map encode_resp body) in
+  VL [out_cres c; VL (map out_call calls); VZ status;
+      of_bool (match body with Some r => p_retryable r | None => false end);
+      of_bool (match body with Some r => p_usage r | None => false end);
+      VL (out_outcome (to_outcome c))].
+
+(* ---- worker pool: [6 target [event ...]] ; events [0 d] tick, [1 pid] ready, [2 pid reset] exit, [3 pid] stopping, [4 b] monitor,
+        [5] close, [6 rid] arrive, [7 pid rid] accept, [8 pid rid] reply, [9 rid] give up
+        -> [[rid fate pid] ...] (fate 0 answered, 1 dropped/reset, 2 dropped/closed, 3 timeout) [procs] nspawns nfails monitor_pc backlog *)
+Definition vlev (v : val) : lev :=
+  let k := vz (vnth 0 v) in
+  if k =? 0 then LTick (vz (vnth 1 v)) else if k =? 1 then LReady (vz (vnth 1 v))
+  else if k =? 2 then LExit (vz (vnth 1 v)) (vbool (vnth 2 v)) else if k =? 3 then LStopping (vz (vnth 1 v))
+  else if k =? 4 then LMonitor (vbool (vnth 1 v)) else if k =? 5 then LClose
+  else if k =? 6 then LArrive (vz (vnth 1 v)) else if k =? 7 then LAccept (vz (vnth 1 v)) (vz (vnth 2 v))
+  else if k =? 8 then LReply (vz (vnth 1 v)) (vz (vnth 2 v)) else LGiveUp (vz (vnth 1 v)).
+Definition out_fate (x : Z * fate) : val :=
+  match snd x with
+  | FAnswered pid => VL [VZ (fst x); VZ 0; VZ pid]
+  | FDropped pid true => VL [VZ (fst x); VZ 1; VZ pid]
+  | FDropped pid false => VL [VZ (fst x); VZ 2; VZ pid]
+  | FTimeout => VL [VZ (fst x); VZ 3; VZ 0]
+  end.
+Definition run_life (v : val) : val :=
+  let '(p, q) := lrun (vz (vnth 1 v)) (map vlev (vl (vnth 2 v))) in
+  VL [VL (map out_fate (rev (l_done q))); VZs (l_procs p); VZ (zlen (l_spawns p)); VZ (zlen (l_fails p));
+      VZ (match l_mon p with MIdle => 0 | MSpawning _ _ => 1 | MBackoff _ => 2 | MDone => 3 end); VZs (l_backlog q);
+      VZs (map snd (l_inflight q))].
+
 Definition run (v : val) : val :=
   let k := vz (vnth 0 v) in
   if k =? 0 then
@@ -45,4 +127,8 @@ Definition run (v : val) : val :=
   else if k =? 1 then
     let '(status, disp, (r, u)) := handler (vbool (vnth 1 v)) (vherr (vnth 2 v)) in
     VL [VZ status; of_bool disp; of_bool r; of_bool u; VL (out_outcome (client_view (vherr (vnth 2 v))))]
-  else VL (cache_run (vz (vnth 1 v)) c_empty (vl (vnth 2 v))).
+  else if k =? 2 then VL (cache_run (vz (vnth 1 v)) c_empty (vl (vnth 2 v)))
+  else if k =? 3 then run_timed v
+  else if k =? 4 then run_rpc v
+  else if k =? 6 then run_life v
+  else VL [].
